@@ -21,7 +21,7 @@ def run(ctx):
     # the reverse-NFA construction (Reverse.v = nfa/reverse.go): the model must build the SAME automaton as nfa.Reverse /
     # nfa.ReverseAnchored (nfa_eqb); Go side: forward accepting paths vs reverse paths / lazy reverse DFA on short haystacks
     generic.standard(ctx, ["Props_Reverse"], "reverse-cases", "reverse-nfa-model-vs-implementation", lists=("M",), seed=1)
-    generic.standard(ctx, ["Props_Dfa", "Props_DfaPrio"], "dfa-cases", "lazydfa-model-vs-implementation", lists=("M", "PS"), seed=1,
+    generic.standard(ctx, ["Props_Dfa", "Props_DfaPrio", "Props_DfaRev"], "dfa-cases", "lazydfa-model-vs-implementation", lists=("M", "PS"), seed=1,
                      ledger="known/C14dfa.ledger", timeout=3000)
     ctx.coverage["explanation"] = (
         "Coq: the bounded backtracker (all entry points, both modes, any reusable state) equals the reference search; declines exactly "
